@@ -28,6 +28,122 @@ type shared struct {
 	senc    []byte // a valid scalar encoding
 }
 
+// focus restricts the concurrent call mix to the actions of one property (set with -focus); empty = all.
+var focus string
+
+// focusOp performs one call (or a short group) of the focused property on own receivers with shared arguments.
+func focusOp(m *M, f string, r int, sh *shared) {
+	switch f {
+	case "C01":
+		m.ESet(r, 2+m.rng.Intn(2))
+		m.EMul(r, 1)
+	case "C02":
+		switch m.rng.Intn(5) {
+		case 0:
+			m.ESet(r, 2)
+		case 1:
+			m.EAdd(r, 2+m.rng.Intn(2))
+		case 2:
+			m.ESub(r, 2+m.rng.Intn(2))
+		case 3:
+			m.EDouble(r)
+		default:
+			m.ENegate(r)
+		}
+	case "C03":
+		switch m.rng.Intn(4) {
+		case 0:
+			m.EDecodeForm(r, "any", sh.enc)
+		case 1:
+			m.EDecodeForm(r, "unc", sh.encUnc)
+		case 2:
+			m.EDecodeForm(r, "hex", []byte(hexString(sh.enc)))
+		default:
+			m.EDecodeForm(r, "comp", sh.enc)
+		}
+	case "C04":
+		switch m.rng.Intn(5) {
+		case 0:
+			m.EEncode(2 + m.rng.Intn(2))
+		case 1:
+			m.EEncodeUnc(2 + m.rng.Intn(2))
+		case 2:
+			m.EHex(2)
+		case 3:
+			m.EMarshal(3)
+		default:
+			m.EXCoord(2)
+		}
+	case "C05":
+		switch m.rng.Intn(3) {
+		case 0:
+			m.EEqual(2, 3)
+		case 1:
+			m.EEqual(3, 3)
+		default:
+			m.EIsIdentity(2 + m.rng.Intn(2))
+		}
+	case "C06":
+		switch m.rng.Intn(7) {
+		case 0:
+			m.SSet(0, 1)
+		case 1:
+			m.SAdd(0, 1+m.rng.Intn(2))
+		case 2:
+			m.SMul(0, 1+m.rng.Intn(2))
+		case 3:
+			m.SSub(0, 1)
+		case 4:
+			m.SSquare(0)
+		case 5:
+			m.SSet(0, 1)
+			m.SInvert(0)
+		default:
+			m.SSetU64(0, uint64(2+m.rng.Intn(6)))
+			m.SPow(0, 1)
+		}
+	case "C07":
+		switch m.rng.Intn(4) {
+		case 0:
+			m.SEncode(1 + m.rng.Intn(2))
+		case 1:
+			m.SDecodeForm(0, "bytes", sh.senc)
+		case 2:
+			m.SHex(1)
+		default:
+			m.SDecodeForm(0, "hex", []byte(hexString(sh.senc)))
+		}
+	case "C08":
+		if m.rng.Intn(2) == 0 {
+			m.EHashToGroup(r, sh.msg, sh.dst)
+		} else {
+			m.EEncodeToGroup(r, sh.msg, sh.dstLong)
+		}
+	case "C09":
+		if m.rng.Intn(2) == 0 {
+			m.SHashToScalar(0, sh.msg, sh.dst)
+		} else {
+			m.SHashToScalar(0, sh.msg, sh.dstLong)
+		}
+	case "C13":
+		switch m.rng.Intn(4) {
+		case 0:
+			m.SLessOrEqual(1, 2)
+		case 1:
+			m.SEqual(1, 2)
+		case 2:
+			m.SCSelect(0, uint64(m.rng.Intn(3)), 1, 2)
+		default:
+			m.SIsZero(1)
+			m.SIsOne(2)
+		}
+	case "C14":
+		m.SBits(1 + m.rng.Intn(2))
+	default:
+		m.EAdd(r, 2)
+	}
+}
+
 func genC16(m0 *M, rounds int) {
 	for round := 0; round < rounds; round++ {
 		rng := rand.New(rand.NewSource(m0.rng.Int63()))
@@ -82,6 +198,10 @@ func genC16(m0 *M, rounds int) {
 						runtime.Gosched()
 					}
 					r := m.rng.Intn(2)
+					if focus != "" {
+						focusOp(m, focus, r, sh)
+						continue
+					}
 					switch m.rng.Intn(30) {
 					case 20: // short results: small base, small shared exponent
 						m.SSetU64(0, uint64(2+m.rng.Intn(6)))
@@ -201,6 +321,6 @@ func genC16(m0 *M, rounds int) {
 func init() {
 	gens["C16"] = func(m *M, pick func(q, t int) int, shards int) {
 		m.perFile = 1 // one trace file per round
-		genC16(m, pick(16, 300))
+		genC16(m, pick(16, 120))
 	}
 }
